@@ -21,8 +21,20 @@
 (***************************************************************************)
 EXTENDS Failover, Json
 
-CONSTANT TraceFile
+CONSTANT TraceFile,
+         DevE      \* TRUE only to CLASSIFY a rejected trace over SyncMap: the named deviation below is allowed
 Trace == ndJsonDeserialize(TraceFile)
+
+(* Named deviation of SyncMap (known findings KF-C16-1 / KF-C08-2, defect D10 SyncMap part): ExpireAll renews the expiry *)
+(* of every entry IN PLACE, so an expired item that a Get read BEFORE the ExpireAll reports the renewed expiry (now) when *)
+(* the Failover asks it later - a value that was too stale when it was read passes for an acceptable stale one.         *)
+ExtExpireAllRenew ==
+  /\ running = "none" /\ EnvOps
+  /\ be' = [k \in Keys |-> IF be[k] = None THEN None ELSE [be[k] EXCEPT !.e = now]]
+  /\ loc' = [p \in Procs |-> IF loc[p].rd.c = "expired" THEN [loc[p] EXCEPT !.rd.e = now] ELSE loc[p]]
+  /\ act' = [p |-> "", name |-> "ExtExpireAll", out |-> "", arg |-> 0]
+  /\ UNCHANGED <<now, stored, writes, bsrc, errs, locks, lrec, nlock, pc, res, building, nb, produced, berrs, fails, met, gh,
+                 faults, running>>
 
 VARIABLE l
 tvars == <<vars, l>>
@@ -49,7 +61,7 @@ Logged(e) ==
     [] e.ev = "ret"     ->
          /\ res[p].done /\ res[p].err = e.err /\ (e.err = "" => res[p].v = e.v)
          /\ UNCHANGED vars
-    [] e.ev = "extexpire" -> ExtExpireAll
+    [] e.ev = "extexpire" -> IF DevE THEN ExtExpireAllRenew ELSE ExtExpireAll
     [] OTHER -> FALSE
 
 Consume == l <= Len(Trace) /\ Logged(Ev) /\ l' = l + 1
